@@ -2,7 +2,7 @@
    with kirin's SimpleJoinMixin / SimpleMeetMixin.  Executable definitions only. *)
 From Coq Require Import String Bool List.
 Import ListNotations.
-Open Scope string_scope.
+Local Open Scope string_scope.
 
 Inductive zone : Type :=
 | NotZone
